@@ -609,3 +609,59 @@ func (g *G) genSIE(id string) *History {
 	}
 	return h
 }
+
+// genSWRInval: the URI is invalidated (or replaced, or requested again) while a stale-while-revalidate
+// background request for it is in flight; then everything comes to rest and the store is listed.
+func (g *G) genSWRInval(id string) *History {
+	h := &History{ID: id, Prop: g.prop, Class: "swr-inval", Backend: pick(g, "mem", "mem", "fs"), Logger: "discard", Concurrent: true}
+	url := "http://a.test/si"
+	vary := pick(g, "", "", "X-A")
+	mk := func(at int64, status int, delay int64, body string, xa string, method string) Op {
+		hd := Hdr{{"Date", dateAt(at+delay, 0)}}
+		if status == 200 {
+			hd = append(hd, [2]string{"Cache-Control", "max-age=5, stale-while-revalidate=600"}, [2]string{"Etag", `"s"`})
+			hd = append(hd, varyHdr(vary)...)
+		}
+		if status == 304 {
+			hd = append(hd, [2]string{"X-New", "n"})
+		}
+		var rh Hdr
+		if vary != "" && xa != "" {
+			rh = Hdr{{"X-A", xa}}
+		}
+		rp := Reply{Status: status, Hdr: hd, Body: body, DelayNs: delay, BodyFail: -1}
+		if status == 304 || status == 204 {
+			rp.Body = ""
+		}
+		return Op{Op: "req", AtNs: at, Method: method, URL: url, Hdr: rh, Replies: []Reply{rp, rp}}
+	}
+	h.Ops = append(h.Ops, mk(0, 200, 0, "s0", "1", "GET"))
+	if vary != "" && g.chance(0.5) {
+		h.Ops = append(h.Ops, mk(sec, 200, 0, "s1", "2", "GET"))
+	}
+	at := 10 * sec
+	for i := 0; i < 1+g.r.Intn(2); i++ {
+		// served STALE at once; the background request takes two seconds
+		bgStatus := pick(g, 304, 304, 200, 500)
+		op := mk(at, bgStatus, 2*sec, "b"+strconv.Itoa(i), "1", "GET")
+		h.Ops = append(h.Ops, op)
+		// ... during which something else happens to the URI
+		mid := at + pick(g, sec/2, sec, sec+sec/2)
+		switch g.r.Intn(4) {
+		case 0, 1:
+			h.Ops = append(h.Ops, mk(mid, pick(g, 204, 200, 303), 0, "", "", pick(g, "POST", "PUT", "DELETE")))
+		case 2:
+			o := mk(mid, 200, 0, "r"+strconv.Itoa(i), "1", "GET")
+			o.Hdr = append(o.Hdr, [2]string{"Cache-Control", "no-cache"})
+			h.Ops = append(h.Ops, o)
+		default:
+			h.Ops = append(h.Ops, mk(mid, 200, 0, "o"+strconv.Itoa(i), "2", "GET"))
+		}
+		at += 10 * sec
+		if g.chance(0.6) {
+			h.Ops = append(h.Ops, mk(at, 200, 0, "a"+strconv.Itoa(i), pick(g, "1", "2"), "GET"))
+		}
+		at += 10 * sec
+	}
+	return h
+}
